@@ -6,20 +6,36 @@
      and for sane m with all preimages known the same for the non-malleable mode.
    Proved here (the part the per-run check relies on): the witnesses the check proposes as
    counter-examples — entries of the specification table built from the caller's assets —
-   really spend, for every fragment nesting (multisig leaves excepted).  So a "BAD C02"
+   really spend, for every fragment nesting (raw_pk_h excepted).  So a "BAD C02"
    report of the check is a genuine violation, never a false alarm of the table.
-   Missing: completeness of the satisfier model w.r.t. the table (satisfier finds a Stack
-   whenever all_sat is non-empty) and Theorem B (any accepted witness is a table entry). *)
-From Verif Require Import Exec Ser Ast Types TypeCheck SatSpec ExecLemmas TheoremA.
+   Also proved: C02_mall_complete_partial — in malleable mode the satisfier MODEL returns a
+   Stack whenever the specification table has an entry built from the caller's assets (and the
+   same for dissatisfactions), for every fragment nesting whose thresholds are n-of-n
+   ([no_partial_thresh]); lock values held by the caller are assumed mutually compatible
+   (they stem from one nLockTime / nSequence).
+   Missing: thresh with k < n (stable-sort selection argument), the non-malleable mode for
+   sane scripts, and Theorem B (any accepted witness is a table entry). *)
+From Verif Require Import Exec Ser Ast Types TypeCheck SatSpec Sat ExecLemmas TheoremA SatProofs CompleteProofs.
 
 Theorem C02_table_witness_spends_partial :
-  forall (e : env) (ke : keyenv) (A : assets),
-  (forall z, (0 <= z < 2147483648)%Z -> num_operand 4 (num_encode z) = Some z) /\
-  (forall z, (0 <= z < 2147483648)%Z -> num_operand 5 (num_encode z) = Some z) /\
-  (forall z, (0 < z < 2147483648)%Z -> truthy (num_encode z) = true) /\
-  (forall v z, num_operand 4 v = Some z -> truthy v = negb (z =? 0)%Z) ->
-  assets_ok e ke A ->
+  forall (e : env) (ke : keyenv) (A : assets), assets_ok e ke A -> (forall kbs, e_sigok e kbs [] = false) ->
   forall (m : ms) (t : ty), type_of m = ROk t -> c_base (t_corr t) = BB -> wf e ke m -> no_multi m ->
   forall w, In w (all_sat ke A m) -> accepts e (enc ke m) w = true.
 Proof. exact witness_script_accepts. Qed.
 Print Assumptions C02_table_witness_spends_partial.
+
+Theorem C02_mall_complete_partial :
+  forall (ke : keyenv) (A : assets) (se : senv) (f : fill), linked ke A se f ->
+  (forall t1 t2, se_after se t1 = true -> se_after se t2 = true ->
+     Bool.eqb (N.ltb t1 500000000) (N.ltb t2 500000000) = true) ->
+  (forall t1 t2, se_older se t1 = true -> se_older se t2 = true ->
+     Bool.eqb (rel_is_time t1) (rel_is_time t2) = true) ->
+  forall (rhs : bool) (m : ms), no_partial_thresh m -> goal ke A se rhs m.
+Proof. exact mall_complete. Qed.
+Print Assumptions C02_mall_complete_partial.
+
+(* what [goal] says *)
+Example C02_goal_meaning : forall ke A se rhs m, goal ke A se rhs m ->
+  (all_sat ke A m <> [] -> is_stack (s_stack (snd (sat_dissat ke se true rhs m))) = true) /\
+  (all_dsat ke A m <> [] -> is_stack (s_stack (fst (sat_dissat ke se true rhs m))) = true).
+Proof. intros ke A se rhs m [_ [_ [H1 H2]]]. split; assumption. Qed.
